@@ -38,11 +38,9 @@ def run(rep, tier):
         uninv = calls(f, 'MicroStepCallbacks::uninvoke')
         rep.minimum('R11.1', len(inv), 1, 'invoke sites in ' + eq)
         rep.minimum('R11.1', len(uninv), 2, 'uninvoke sites in ' + eq)
-        int_block = None
-        for bid, b in g.blocks.items():
-            cnd = b.get('cond')
-            if cnd is not None and cnd in f.nodes and any(x.get('id') == inte['id'] for x in sub(f.nodes[cnd])):
-                int_block = bid
+        from ._skel import result_test_blocks
+        ibs = result_test_blocks(f, g, inte)
+        int_block = ibs[-1] if ibs else None
         if int_block is None:
             raise AnalysisBroken('%s: dequeueInternal condition not found' % eq)
         # completion-phase uninvoke sites lie inside the before/afterCompletion bracket
